@@ -449,3 +449,38 @@ def realfs_pair2(ka, kb, ca, cb, ta, tb, out_exists):
     _judge(g1, w1, d1)
     _judge(g2, w2, d2)
     return True
+
+
+def realfs_chunk(data, s0, s1, s2):
+    """Stage 2 for the chunk loop: real hashlib digests, same short-read schedules."""
+    import hashlib
+    import importlib
+
+    real = importlib.reload(importlib.import_module("metador_core.util.hashsums"))
+    for alg in ("sha256", "sha512"):
+        want = alg + ":" + hashlib.new(alg, data).hexdigest()
+        for sched in ([s0, s1, s2], [s2, s0], []):
+            got = real.qualified_hashsum(Stream(data, sched), alg)
+            if got != want:
+                raise AssertionError("digest differs for %r schedule %r: %s != %s" % (data, sched, got, want))
+    return True
+
+
+def realfs_chunk_bytes(b0, b1, b2, n):
+    import hashlib
+    import importlib
+
+    real = importlib.reload(importlib.import_module("metador_core.util.hashsums"))
+    data = bytes([b0, b1, b2][:n])
+    return real.qualified_hashsum(data, "sha256") == "sha256:" + hashlib.sha256(data).hexdigest()
+
+
+def realfs_unknown_alg(alg):
+    import importlib
+
+    real = importlib.reload(importlib.import_module("metador_core.util.hashsums"))
+    try:
+        real.qualified_hashsum(b"ab", alg)
+        return alg in ("sha256", "sha512")
+    except ValueError:
+        return alg not in ("sha256", "sha512")
